@@ -281,6 +281,21 @@ func (s *c05Sim) step(a c05Act) {
 	} else {
 		s.observe(from, after, name, allowed)
 	}
+	// "each change takes effect exactly when its cause does": a cause that is processed must HAVE its
+	// effect. A disconnect reported by the CURRENT generation leaves the connection NotConnected whatever
+	// commit lands in step's load/store window (the commit comes from the dying generation's own receive
+	// path); a T7 expiry processed while NotSelected (after any interposed commit) drops the link; Close
+	// always ends NotConnected. Stale events and events behind the closed latch are exempt.
+	if !wasClosed {
+		switch {
+		case ev == hsms.VerifEvDisconnect && tag == s.env.gen && after != hsms.NotConnectedState:
+			s.violate("disconnect-without-effect-"+after.String(), fmt.Sprintf("evDisconnect of the current generation %d was processed (state before %v, at the seam %v) and State() is %v afterwards", tag, before, from, after))
+		case ev == hsms.VerifEvT7Timeout && !interposed && tag == s.env.gen && from == hsms.NotSelectedState && after != hsms.NotConnectedState:
+			s.violate("t7-without-effect-"+after.String(), fmt.Sprintf("evT7Timeout was processed while NotSelected and State() is %v afterwards", after))
+		case ev == hsms.VerifEvClose && after != hsms.NotConnectedState && !interposed:
+			s.violate("close-without-effect-"+after.String(), fmt.Sprintf("evClose was processed and State() is %v afterwards", after))
+		}
+	}
 	if ev == hsms.VerifEvClose && !wasClosed {
 		if !s.v.Closed() {
 			s.violate("close-not-latched", "evClose was processed but the supervisor is not latched closed")
